@@ -1137,6 +1137,9 @@ func (c *ControlPlane) InheritDialerHealthFrom(previous *ControlPlane) bool {
 		}
 		oldGroup := previousGroups[group.Name]
 		if oldGroup == nil {
+			// A group without a counterpart inherits nothing itself, but it may
+			// share dialers with a group that does; it needs its floor as well.
+			floors = append(floors, pendingFloor{group: group, fallback: group.CaptureReloadSelectionFallback()})
 			continue
 		}
 		fallback := group.CaptureReloadSelectionFallback()
